@@ -200,4 +200,82 @@ Proof.
   destruct (mreach_alloc T w m x HF A1) as (nx & Hnx). exact (tf_alloc _ HF _ _ Hnx).
 Qed.
 
+(* ---------- histories over op2 *)
+Hypothesis RC : RefChars T.
+Hypothesis MO : MaskOk T.
+
+Notation Known_real2 := (Known_real2 T tab_el tab_at tab_en check_fn float_parse float_fmt LATEST name_index name_definition_ref
+                                     attr_schema_location root_attrs).
+Notation Side45_2 := (Side45_2 T tab_el tab_en check_fn LATEST root_attrs).
+Notation run_hist2 := (run_hist2 T tab_el tab_at tab_en check_fn float_parse float_fmt LATEST name_index name_definition_ref
+                                 attr_schema_location root_attrs).
+
+(* the invariant carried along: C03's RealInv (TreeInv, character leaves, referrer entries are references), C04's Inv04,
+   C05's Inv05 and the node invariant RX *)
+Definition J06 (w : world) : Prop := RealInv T w /\ Inv04 T check_fn w /\ Inv05 T w /\ RX T w.
+
+(* every step: not the PENDING constructor (pending_op2 = OpLoad), not in a finding class of C03 (Known_real2: a move / copy
+   that fails after re-parenting, a duplicate that fails half-way), and the side conditions of C04/C05 (Side45_2: their
+   finding classes for the 26 constructors, no late SHORT-NAME for the sorts, dup_clean for duplicate) *)
+Fixpoint steps06_2 (l : list op2) (w : world) : Prop :=
+  match l with
+  | [] => True
+  | o :: rest =>
+    pending_op2 o = false /\ Known_real2 w o = false /\ Side45_2 w o /\
+    match run2 o w with Val (_, w') => steps06_2 rest w' | _ => True end
+  end.
+
+Lemma J06_step o w r w' :
+  J06 w -> pending_op2 o = false -> Known_real2 w o = false -> Side45_2 w o -> run2 o w = Val (r, w') -> J06 w'.
+Proof.
+  intros (HR & H4 & H5 & HX) Hp HK HS H.
+  assert (HR' : RealInv T w').
+  { eapply (RealInv_step2_partial T tab_el tab_at tab_en check_fn float_parse float_fmt LATEST name_index name_definition_ref
+                                  attr_schema_location root_attrs o w r w'); eauto. }
+  assert (Hp3 : Pending45_3 o = false) by (destruct o; try reflexivity; discriminate Hp).
+  destruct (C45_inv2 T tab_el tab_at tab_en check_fn float_parse float_fmt LATEST name_index name_definition_ref
+                     attr_schema_location root_attrs TK RootTy MO w o r w' (proj1 HR) H4 H5 HX HS Hp3 H) as (A & B & C).
+  split; [exact HR'|]. split; [exact A|]. split; [exact B|exact C].
+Qed.
+
+Lemma J06_history l : forall w w', J06 w -> steps06_2 l w -> run_hist2 l w = Val w' -> J06 w'.
+Proof.
+  induction l as [|o rest IH]; intros w w' HJ Hok H; cbn [IndexProofsOp2.run_hist2 steps06_2] in *.
+  - injection H as <-. exact HJ.
+  - destruct Hok as (Hp & HK & HS & Hrest). destruct (run2 o w) as [[r w1]| |] eqn:E; try discriminate H.
+    eapply IH; [|exact Hrest|exact H]. eapply J06_step; eauto.
+Qed.
+
+Lemma J06_empty : J06 empty_world.
+Proof.
+  split; [apply RealInv_empty|]. split; [apply Inv04_empty|]. split; [apply Inv05_empty|]. intros i n Hn. discriminate Hn.
+Qed.
+
+Lemma J06_Inv06 w : J06 w -> Inv06 w.
+Proof. intros ((HT & _) & H4 & H5 & _). split; [apply treeinv_treefacts; exact HT|]. split; assumption. Qed.
+
+Theorem C06_history2_partial l w :
+  steps06_2 l empty_world -> run_hist2 l empty_world = Val w -> Inv06 w /\ TreeInv w /\ RX T w.
+Proof.
+  intros Hok H. pose proof (J06_history l empty_world w J06_empty Hok H) as HJ.
+  split; [apply J06_Inv06; exact HJ|]. destruct HJ as ((HT & _) & _ & _ & HX). split; assumption.
+Qed.
+
+(* after such a history: the clauses of a rename, the total case split of a move, the frame of the read-only / sorting
+   operations, and the duplicate theorem all apply *)
+Theorem C06_after_history2 l w o v w' :
+  steps06_2 l empty_world -> run_hist2 l empty_world = Val w ->
+  run_op T tab_el tab_en check_fn LATEST root_attrs o w = Val (OK v, w') ->
+  (forall h nn, o = OpSetItemName h nn -> rename_clauses T w w' h) /\
+  (forall h mv, (o = OpMove h mv \/ exists pos, o = OpMoveAt h mv pos) ->
+     move_clauses T w w' h mv \/
+     (exists m, model_of h w = Val (OK m, w) /\ model_of mv w = Val (OK m, w) /\
+                identifiable T w mv = false /\ collision06 T w h mv = true)).
+Proof.
+  intros Hok Hr H. destruct (C06_history2_partial l w Hok Hr) as (HI & _).
+  split.
+  - intros h nn ->. eapply C06_rename_op; eauto.
+  - intros h mv Ho. eapply C06_move_total; eauto.
+Qed.
+
 End Op2.
